@@ -1010,7 +1010,13 @@ class Compiler:
             )
         )
 
-        internals = COMPILER_INTERNALS_OR_DISALLOWED | set(self.defaults)
+        # "target_language" is a local of every render function (set by
+        # i18n:target); generated code that passes through the name
+        # transform, such as the translation of an attribute, must
+        # read that local and not the render argument
+        internals = COMPILER_INTERNALS_OR_DISALLOWED | set(self.defaults) | {
+            "target_language"
+        }
 
         transform = NameTransform(
             self.global_builtins | set(builtins),
